@@ -193,6 +193,20 @@ def gwb_dat(P, rep, widths, rule="LAYOUT.L4.dat"):
     by_kind = {s["kind"]: s for s in segs}
     rep.ok(rule, "request list: " + ", ".join("%s@%s(x%s)" % (layout.KINDS[s["kind"]], s["offset"], s["mult"]) for s in segs) + "; total %s" % total,
            F.nloc(segs[0]["node"]), F.qn)
+    # the request holds as many blocks of each kind as the table has column groups: one composition block per requested composition,
+    # one grains block (of n_grains grains) per requested grain composition, one each of temperature, velocity, tag
+    want_mult = {1: (sp.Integer(1), None), 5: (sp.Integer(1), None), 4: (sp.Integer(1), None), 2: (COMP, None), 3: (GCOMP, NGR)}
+    for kd, (wm, wn) in want_mult.items():
+        sg = by_kind[kd]
+        if sp.expand(sg["mult"] - wm) != 0 or (wn is not None and sp.expand(sg["n"] - wn) != 0):
+            rep.violation(rule, "request list: %s is requested %s times%s, the table prints %s%s" % (
+                              layout.KINDS[kd], sg["mult"], (" with %s grains" % sg["n"]) if wn is not None else "", wm, (" with %s grains" % wn) if wn is not None else ""),
+                          F.nloc(sg["node"]), F.qn, norm.render(P, sg["node"])[:120],
+                          "the rows are printed from positions the request does not contain (values of other properties, or memory past the result)",
+                          key="%s|request|%s" % (rule, layout.KINDS[kd]),
+                          witness="a data file with more grain compositions than compositions (or the reverse)")
+        else:
+            rep.ok(rule, "request list: %s x %s" % (layout.KINDS[kd], wm), F.nloc(sg["node"]), F.qn)
     # the switch on dim
     sws = [n for n in F.walk() if n.get("k") == "SwitchStmt" and astq.is_ref_to(n["c"][0], names["dim"])]
     if len(sws) != 1:
